@@ -474,30 +474,33 @@ Definition e5 (S : list (list (list (list (list Qc))))) (k : nat) : nat -> nat -
 Definition exQ : shell Qc := mkShell Qc 1 (q 0 1) (q 1 3) (q (-1) 1) [q 2 3] [[q 5 7]] false [] [].
 
 (* one point charge, p x p, the improper rotation *)
-Example one_elec_point_law_computed :
+Definition exb_one_elec_point : bool :=
   (let R := Rimp in
    let C' := mapply KQ R exC in
    let S := one_elec_point KQ (vget exC 0) (vget exC 1) (vget exC 2) exP exQ in
    let S' := one_elec_point KQ (vget C' 0) (vget C' 1) (vget C' 2) (rot_shell KQ R exP) (rot_shell KQ R exQ) in
-   blk2_all R 1 (e4 S) (e4 S')) = true.
+   blk2_all R 1 (e4 S) (e4 S')).
+Example one_elec_point_law_computed : exb_one_elec_point = true.
 Proof. vm_compute. reflexivity. Qed.
 (* PointChargeIntegral block, two points, p x d (swapped branch), the 3-4-5 rotation *)
-Example point_charge_block_law_computed :
+Definition exb_point_charge_block : bool :=
   (let R := R345 in
    let S := point_charge_block KQ exPts exP exD in
    let S' := point_charge_block KQ (rot_points KQ R exPts) (rot_shell KQ R exP) (rot_shell KQ R exD) in
-   forallb (fun k => blk2_all R 2 (e5 S k) (e5 S' k)) [0; 1]%nat) = true.
+   forallb (fun k => blk2_all R 2 (e5 S k) (e5 S' k)) [0; 1]%nat).
+Example point_charge_block_law_computed : exb_point_charge_block = true.
 Proof. vm_compute. reflexivity. Qed.
-Example momentum_block_law_computed :
+Definition exb_momentum_block : bool :=
   forallb (fun R =>
     let S := momentum_block_re KQ exP exD in
     let S' := momentum_block_re KQ (rot_shell KQ R exP) (rot_shell KQ R exD) in
     forallb (fun k => blk2_all R 2
       (fun ma ia mb ib => sum3 KQ (fun i => fmul KQ (matf R k i) (e5 S (ax2nat i) ma ia mb ib)))
-      (e5 S' (ax2nat k))) [AX; AY; AZ]) [R345; Rimp] = true.
+      (e5 S' (ax2nat k))) [AX; AY; AZ]) [R345; Rimp].
+Example momentum_block_law_computed : exb_momentum_block = true.
 Proof. vm_compute. reflexivity. Qed.
 (* multipole moment, p x p: the order o = (1,1,0) of the requested list, against all six second-order moments about R C *)
-Example moment_block_law_computed :
+Definition exb_moment_block : bool :=
   forallb (fun R =>
     let C' := mapply KQ R exC in
     let o := (1, 1, 0)%nat in
@@ -506,7 +509,8 @@ Example moment_block_law_computed :
                 (rot_shell KQ R exP) (rot_shell KQ R exQ) in
     blk2_all R 1 (e5 S 1)
       (fun ma ia mb ib => FNum.fsum KQ (mk 6 (fun d' =>
-         fmul KQ (rep_mat KQ R (cmpd 2 d') o) (e5 S' d' ma ia mb ib))))) [R345; Rimp] = true.
+         fmul KQ (rep_mat KQ R (cmpd 2 d') o) (e5 S' d' ma ia mb ib))))) [R345; Rimp].
+Example moment_block_law_computed : exb_moment_block = true.
 Proof. vm_compute. reflexivity. Qed.
 (* not vacuous: the one-electron block does change under the rotation *)
 Example one_elec_point_not_invariant :
